@@ -26,9 +26,16 @@ def run_with_watchdog(v, vh, driver, args, wd, plans, timeout=1500):
     try:
         rc, err = core.run_harness(vh, driver, args, timeout=timeout, env={"VH_PROGRESS": marker})
     except core.ToolError:
+        for flag, drop in (("--trace", True), ("--blobs", False)):
+            if flag in args:
+                core.keep_complete_lines(args[args.index(flag) + 1], drop_last_run=drop)
         cur = open(marker).read().strip() if os.path.exists(marker) else "?"
         v.violation("hostile:hang", "the client did not return (watchdog) while processing plan %s" % cur, {"plan": [x for x in plans if x.get("id") == cur][:1]})
         return
     if rc != 0:
+        # the files may end in the middle of a line: keep what is complete, without the run that was in flight
+        for flag, drop in (("--trace", True), ("--blobs", False)):
+            if flag in args:
+                core.keep_complete_lines(args[args.index(flag) + 1], drop_last_run=drop)
         cur = open(marker).read().strip() if os.path.exists(marker) else "?"
         v.violation("hostile:abort", "the driver process died (rc %s: abort / stack overflow / refused allocation) while processing plan %s: %s" % (rc, cur, err[-300:]), {"plan": [x for x in plans if x.get("id") == cur][:1]})
